@@ -51,7 +51,10 @@ def plan_items(tier, seed, d3_mod_quick=64, groups_thorough=True):
 
 def expand(item):
     kind = item[0]
-    if kind == "d1":
+    if kind == "one":
+        # a single depth-1 state (used for first-use runs in pristine processes)
+        yield ("s", item[1]), A.schema_of((item[1],)), VAL.V, 1
+    elif kind == "d1":
         for n, leaf in enumerate(A.LEAVES):
             yield ("leaf", n), leaf, VAL.V, 1
         for (i,) in A.depth1():
